@@ -804,6 +804,151 @@ def rule_registry(model):
     return r
 
 
+PREFIX_REFERENCE = '[A-Za-z][A-Za-z0-9_]*'
+
+
+def rule_prefix_grammar(model):
+    r = RuleResult('C06.R7', 'prefix= is accepted iff it is a simple name: '
+                   'the predicate is a regular expression whose language is '
+                   'exactly ' + PREFIX_REFERENCE + ' (an ASCII letter, then '
+                   'letters, digits, underscores), and every tag that takes '
+                   'a prefix rejects other values with a ParseError')
+    mu = model.module('DT_Util')
+    vals = list(mu.globals.get('simple_name', []))
+    fn = mu.funcs.get('simple_name')
+    pat = None
+    flags = 0
+    method = None
+    for v in vals:
+        if isinstance(v, ast.Attribute) and isinstance(v.value, ast.Call) \
+                and norm(v.value.func) == 're.compile' and v.value.args:
+            ok, pv = model.fold(v.value.args[0], None, mu)
+            if ok:
+                pat, method = pv, v.attr
+            for fnode in v.value.args[1:2] + [
+                    k.value for k in v.value.keywords if k.arg == 'flags']:
+                for x in ast.walk(fnode):
+                    if isinstance(x, ast.Attribute) and \
+                            hasattr(re, x.attr) and x.attr.isupper():
+                        flags |= int(getattr(re, x.attr))
+    if pat is None:
+        what = norm(vals[0]) if vals else (
+            'def simple_name' if fn is not None else None)
+        if what is None:
+            raise AnalysisError('DT_Util.simple_name not found')
+        r.instance('DT_Util:simple_name', what, 'NOT A REGULAR EXPRESSION')
+        r.finding('DT_Util:simple_name', what, 'the simple-name test is '
+                  'not the anchored regular expression of the grammar '
+                  '(str.isidentifier and similar also accept a leading '
+                  'underscore and non-ASCII letters and digits): invalid '
+                  'prefixes compile silently',
+                  node=vals[0] if vals else fn.node, ctx=mu)
+    else:
+        core = pat
+        anchored_end = core.endswith('$') or core.endswith(r'\Z')
+        for a in ('^', r'\A'):
+            if core.startswith(a):
+                core = core[len(a):]
+        for a in ('$', r'\Z'):
+            if core.endswith(a):
+                core = core[:-len(a)]
+        try:
+            inc, wit = regexa.included(core, PREFIX_REFERENCE, flags, 0)
+            inc2, wit2 = regexa.included(PREFIX_REFERENCE, core, 0, flags)
+        except regexa.Unsupported as e:
+            raise AnalysisError(f'C06.R7: {e}')
+        r.instance('DT_Util:simple_name', repr(pat),
+                   'language = reference' if inc and inc2 else
+                   f'differs: {wit!r} / {wit2!r}')
+        if not inc:
+            r.finding('DT_Util:simple_name', repr(pat), f'the simple-name '
+                      f'pattern also accepts {wit!r}: an invalid prefix '
+                      'compiles instead of being rejected', node=vals[0],
+                      ctx=mu)
+        if not inc2:
+            r.finding('DT_Util:simple_name', repr(pat), f'the simple-name '
+                      f'pattern rejects the valid prefix {wit2!r}',
+                      node=vals[0], ctx=mu)
+        if method != 'match' or not anchored_end:
+            r.finding('DT_Util:simple_name', repr(pat), 'the pattern is '
+                      'not anchored at both ends (.match with a trailing '
+                      '$): names with a valid beginning only are accepted',
+                      node=vals[0], ctx=mu)
+    # users: `if prefix and not simple_name(prefix): raise ParseError`
+    n_use = 0
+    for fi in model.all_funcs():
+        for n in own_nodes(fi.node):
+            if isinstance(n, ast.If) and any(
+                    isinstance(c, ast.Call) and isinstance(c.func, ast.Name)
+                    and c.func.id == 'simple_name' for c in ast.walk(n.test)):
+                n_use += 1
+                raises = [x for x in n.body if isinstance(x, ast.Raise)]
+                neg = any(isinstance(u, ast.UnaryOp) and
+                          isinstance(u.op, ast.Not) and any(
+                              isinstance(c, ast.Call) and
+                              isinstance(c.func, ast.Name) and
+                              c.func.id == 'simple_name'
+                              for c in ast.walk(u))
+                          for u in ast.walk(n.test))
+                ok = bool(raises) and neg and \
+                    _exc_name(raises[0]) == 'ParseError'
+                r.instance(fi.where, f'if {norm(n.test)}', 'rejects' if ok
+                           else 'DOES NOT REJECT')
+                if not ok:
+                    r.finding(fi.where, f'if {norm(n.test)}', 'a non-simple '
+                              'prefix is not rejected with ParseError here',
+                              node=n, ctx=fi)
+    if n_use < 2:
+        raise AnalysisError(f'C06.R7: only {n_use} prefix checks found')
+    return r
+
+
+def rule_block_context(model):
+    r = RuleResult('C06.R8', 'while a block is scanned, continuation and '
+                   'end tags are classified against the block\'s OPENING '
+                   'tag: the command and the start-tag arguments handed to '
+                   'the tag classifier are not re-assigned inside the '
+                   'scanning loop')
+    S = model.cls('DT_String', 'String')
+    n = 0
+    for name in ('parse_block', 'parse_close'):
+        fi = S.methods.get(name)
+        if fi is None:
+            raise AnalysisError(f'String.{name} vanished')
+        for lp in own_nodes(fi.node):
+            if not isinstance(lp, (ast.While, ast.For)):
+                continue
+            assigned = set()
+            for x in ast.walk(lp):
+                if isinstance(x, ast.Name) and isinstance(x.ctx, ast.Store):
+                    assigned.add(x.id)
+            for c in ast.walk(lp):
+                if isinstance(c, ast.Call) and \
+                        isinstance(c.func, ast.Attribute) and \
+                        c.func.attr in ('_parseTag', 'parseTag') and \
+                        len(c.args) >= 2:
+                    n += 1
+                    ctx_args = c.args[1:3]
+                    bad = [a for a in ctx_args for x in ast.walk(a)
+                           if isinstance(x, ast.Name) and x.id in assigned]
+                    r.instance(fi.where, c, 'opening-tag context' if not bad
+                               else 'LOOP-VARIANT CONTEXT')
+                    for a in bad:
+                        r.finding(fi.where, c, f'`{norm(a)}` is re-assigned '
+                                  'inside the scanning loop (at each '
+                                  'continuation tag): a later continuation '
+                                  'such as <dtml-else name> is compared '
+                                  'with the previous continuation\'s '
+                                  'arguments, taken for a new block, and a '
+                                  'valid template is rejected', node=c,
+                                  ctx=fi)
+    if n < 2:
+        raise AnalysisError(f'C06.R8: only {n} classifier calls in '
+                            'scanning loops')
+    r.floor = 2
+    return r
+
+
 def rule_all(model):
     cg = _cg(model)
     if cg.registry.problems:
@@ -812,7 +957,8 @@ def rule_all(model):
     out = [rule_regex(model), rule_raise(model)]
     out += rule_partial(model)
     out += [rule_location(model), rule_recursion(model),
-            rule_registry(model)]
+            rule_registry(model), rule_prefix_grammar(model),
+            rule_block_context(model)]
     return out
 
 
